@@ -68,6 +68,8 @@ impl SwiftField for Field62F {
     where
         Self: Sized,
     {
+        super::swift_utils::require_ascii(input, "Field 62F")?;
+
         // Format: 1!a6!n3!a15d - DebitCredit + Date + Currency + Amount
         if input.len() < 10 {
             return Err(ParseError::InvalidFormat {
@@ -119,6 +121,8 @@ impl SwiftField for Field62M {
     where
         Self: Sized,
     {
+        super::swift_utils::require_ascii(input, "Field 62M")?;
+
         // Format: 1!a6!n3!a15d - DebitCredit + Date + Currency + Amount
         if input.len() < 10 {
             return Err(ParseError::InvalidFormat {
